@@ -228,6 +228,14 @@ class C13:
                     if not (2**(le - 1) < e < 2**le and is_probable_prime(e) and math.gcd(e, phi) == 1):
                         P.fail(S, "e-shape", "e is not an le-bit prime coprime to phi", [str(e)])
                     S.run([vline(x, msgs, sig)], expect=expect_bool(True), label="verify(sign)")
+                    # the prime search for e started just below 2^le (first draw forced): the prime that follows has le + 1 bits and
+                    # must be refused by the signer's own bounds; the signature returned must again carry an le-bit e
+                    if stats["signatures"] <= 2:
+                        for api, extra in (("clsign", zl(msgs)), ("clsign1", "%d" % msgs[0])):
+                            for start in ((1 << le) - 1, (1 << le) - 2):
+                                rf = S.run(["Q,%s %s %s %s %s %s %s" % (str(start).encode().hex(), api, suite, zl(x.pk), zl(x.sk), zl(x.bases), extra)], expect="ok", label="forced-e-start")[0]
+                                if rf.status == "OK" and not (2**(le - 1) < rf.z(0) < 2**le):
+                                    P.fail(S, "e-shape", "%s issued an exponent of %d bits after a prime search started at 2^le - %d" % (api, rf.z(0).bit_length(), (1 << le) - start), [str(rf.z(0))])
                     # single attribute API
                     r1 = S.run(["clsign1 %s %s %s %s %d" % (suite, zl(x.pk), zl(x.sk), zl(x.bases), msgs[0])], expect="ok", label="clsign1")[0]
                     if r1.status == "OK":
